@@ -91,7 +91,7 @@ def descs(draw, odd_units=True, text_curves=True, nan=True):
                     cv[4][i] = "nan"
     if text_curves and len(desc["curves"]) > 1 and draw(st.integers(0, 4)) == 0:
         cv = desc["curves"][-1]
-        cv[4] = [draw(st.sampled_from(["abc", "LIME", "x1", "N/A", "sand stone", "a b"])) for _ in range(nrows)]
+        cv[4] = [draw(st.sampled_from(["abc", "LIME", "x1", "N/A", "sand stone", "a b", "", "two  blanks", "PAD   ", "it's", 'q"uote', "5'6\""])) for _ in range(nrows)]
         if len(cv) > 5:
             cv[5] = "s"
         else:
